@@ -105,9 +105,11 @@ func Cookies(cookies []*http.Cookie) event.Option {
 func (s *httpService) Handle(ctx context.Context, conn net.Conn) error {
 	id := xid.New()
 
-	for {
-		br := bufio.NewReader(conn)
+	// one reader for the whole connection: bytes of a following request that
+	// were read ahead stay available to the next iteration
+	br := bufio.NewReader(conn)
 
+	for {
 		req, err := http.ReadRequest(br)
 		if err == io.EOF {
 			return nil
@@ -115,12 +117,11 @@ func (s *httpService) Handle(ctx context.Context, conn net.Conn) error {
 			return err
 		}
 
-		defer req.Body.Close()
-
 		body := make([]byte, 1024)
 
-		n, err := req.Body.Read(body)
-		if err == io.EOF {
+		// the first 1024 bytes of the body, however they arrive
+		n, err := io.ReadFull(req.Body, body)
+		if err == io.EOF || err == io.ErrUnexpectedEOF {
 		} else if err != nil {
 			return err
 		}
@@ -128,6 +129,7 @@ func (s *httpService) Handle(ctx context.Context, conn net.Conn) error {
 		body = body[:n]
 
 		io.Copy(ioutil.Discard, req.Body)
+		req.Body.Close()
 
 		var connOptions event.Option = nil
 
